@@ -42,6 +42,7 @@ type Report struct {
 	Analysed    map[string]int    // counters: packages, functions, call sites ...
 	start       time.Time
 	selfTestResults []selfTestResult
+	benignResults   []selfTestResult
 }
 
 func newReport(prop, tier string) *Report {
@@ -271,6 +272,17 @@ func (r *Report) finish(verifDir string, seed int64) int {
 		d, m, sk := printSelfTest(r.selfTestResults)
 		cov["selftest"] = map[string]any{"seeded_changes": len(r.selfTestResults), "detected": d, "missed": m, "skipped": sk, "results": r.selfTestResults,
 			"note": "each seeded change (see /verif/seeded/<id>/meta.json) applied to a scratch copy of /repo; this checker must report it"}
+	}
+	if r.benignResults != nil {
+		q, a, sk := printSelfTestBenign(r.benignResults)
+		var alarming []selfTestResult
+		for _, b := range r.benignResults {
+			if b.Result != "quiet" {
+				alarming = append(alarming, b)
+			}
+		}
+		cov["selftest_benign"] = map[string]any{"variants": len(r.benignResults), "quiet": q, "alarms": a, "skipped": sk, "not_quiet": alarming,
+			"note": "behaviour-preserving refactorings by independent sub-agents (/verif/refactorings) and an alpha-renamed copy of the tree; this check must stay quiet on each"}
 	}
 	ev := map[string]any{
 		"property_id": r.Prop,
